@@ -44,6 +44,26 @@ CHECKS = {
     'C07': (MC, BFS + 'oracle: exhaustive completion search on the reference automaton after every successful addition',
             'Every successful add / forward add / dot set reached by the exploration must leave a multiset of children that some '
             'schema-valid word can still contain (search over NFA state sets x remaining multiset, exhaustive).', NOTE, '4 C07'),
+    'C08': (MC, 'model-driven: documents enumerated from the reference model per class (values, attributes, words, embeddings) '
+                'built through the API, written, re-parsed and compared as typed infosets; second round trip byte-compared',
+            'Every class with every accepted value shape, every attribute with representative values, every content-model word up to '
+            'length 2/3 and every parent embedding is round-tripped through write/parse_musicxml.',
+            'Documents the matcher refuses are skipped and counted. Typed comparison uses the reference schema.', '4 C08'),
+    'C09': (MC, 'model-driven: raw XML documents generated from the reference grammar (independently of the library), pre-validated by '
+                'the JDK validator, parsed by the library; 8 mutation operators for the no-silent-loss half',
+            'Per declaration: minimal document, words up to length 2/3, every attribute incl. xml:/xlink: forms, numeric spellings, '
+            'pretty-printed variants, pinned real-world files; valid input must be read back as the same typed infoset, mutated input '
+            'must raise or keep every item.', 'Mutations at the root and its children only. JDK decides validity of generated inputs.', '4 C09'),
+    'C17': ('fault_enumeration', 'fault-point enumeration: every node failing its check and an exception injected at every k-th call of the '
+            'functions write() passes through, x 3 destination states; 4 default-encoding configurations in subprocesses',
+            'Every way the final check can fail on a complete score and every injected fault index is executed against an absent, empty '
+            'and pre-filled destination; the destination bytes must be unchanged. Encoding independence is compared across UTF-8, the '
+            'real C locale and emulated Latin-1/cp1252 defaults.', 'Latin-1/cp1252 emulated by wrapping open() (locales not installed).', '4 C17'),
+    'C20': (MC, 'stateless schedule enumeration under a sys.settrace scheduler: one pre-emption of thread A before every library line event '
+                '(quick: first 2 executions of every distinct line), thread B to completion in the gap, fork per schedule from a pristine parent',
+            'All single-pre-emption schedules of two threads building elements of the same / related classes, with the lazily built class '
+            'tables empty at the start of every execution; each thread must obtain its solo result.',
+            'Pre-emption bound 1, line granularity, two threads.', '4 C20'),
     'C10': (MC, BFS + 'deviation = failing call; observational fingerprint (views, attributes, value, serialisation verdict, '
             'acceptance of every next symbol) compared before/after every failing call', 'Every failing call met (alphabet arguments, '
             'out-of-alphabet arguments, failing attribute/value assignments, refused serialisations) is followed by a fingerprint '
